@@ -694,6 +694,9 @@ func ruleR10() *Rule {
 						c.ok(key, c.fpos(nwcm), fq+" is assigned by newWithChunkMode before convert runs")
 					case resetExempt[fq] != "":
 						c.ok(key, c.fpos(t.reset), fq+" is exempt: "+resetExempt[fq])
+					case func() bool { ok, _ := cleanAtUse(p, t.name, st, i); return ok }():
+						_, how := cleanAtUse(p, t.name, st, i)
+						c.ok(key, c.fpos(t.reset), fq+" is not re-initialised by Reset but is clean at use: "+how)
 					default:
 						c.bad(key, c.fpos(t.reset), "every field of the pooled "+t.name+" has a re-initialisation point (Reset, an always-supplied Set key, or newWithChunkMode)",
 							fq+" is never re-initialised: it carries the value of the previous build into the next one (the builder is pooled)")
@@ -744,6 +747,12 @@ func ruleR10() *Rule {
 									}
 								}
 								c.ok(key, c.pos(sl), "truncated-only slice "+t.name+"."+f+" is re-extended in "+funcShortName(fn)+": tabled: "+reason)
+							} else if lx := lenArgOf(sl.High); sl.Low == nil && lx != nil && elementsAssignedBeforeRead(fn, sl, lx, func(a, b ssa.Value) bool {
+								s1, f1, b1, ok1 := loadedField(a)
+								s2, f2, b2, ok2 := loadedField(b)
+								return ok1 && ok2 && s1 == s2 && f1 == f2 && root(b1) == root(b2)
+							}) {
+								c.ok(key, c.pos(sl), "truncated-only slice "+t.name+"."+f+" is re-extended in "+funcShortName(fn)+" and every element is assigned (or truncated) by a loop over it before any is read")
 							} else {
 								c.bad(key, c.pos(sl), "a slice that Reset only truncates is not re-extended over stale elements",
 									fmt.Sprintf("%s.%s is only truncated by Reset (elements keep the previous build's values) and re-extended by reslicing in %s: stale elements become visible", t.name, f, funcShortName(fn)),
